@@ -14,7 +14,15 @@ base, middle or leaf table).  A history is a list of get/set/delete/add/expire/
 commit/flush+rollback/rollback operations; every session operation is atomic
 w.r.t. the database (pysqlite takes its write lock at the first DML of a flush and
 every flush here is followed by commit or rollback), so op interleavings are all
-the schedules SQLite admits.
+the schedules SQLite admits.  `n` opens a SAVEPOINT (Session.begin_nested(), on a
+session with nothing to flush); the session's next commit then flushes INSIDE the
+SAVEPOINT and, when that flush is rejected, rolls back the SAVEPOINT only and commits
+the enclosing transaction (the application "catches StaleDataError and goes on");
+such an episode is contiguous (one session; it holds SQLite locks meanwhile).
+Generators: random histories (with SAVEPOINT episodes), a "batch" family (one flush
+writes several rows whose version counters differ; the writer keeps using its objects
+without reload: expire_on_commit off / second flush), all short op sequences over a
+two-session alphabet, all short in-memory op sequences inside a SAVEPOINT.
 
 Direct oracle (independent of the Lean model): an optimistic-concurrency
 reference kept from ORM load/refresh events and an observer connection:
@@ -24,7 +32,9 @@ reference kept from ORM load/refresh events and an observer connection:
  * a successful commit writes exactly the intended rows with the intended values,
    bumps the version of every updated row (old+1, or a never-used value for the
    user generator) and leaves the other rows alone;
- * a StaleDataError is raised only when a written row really changed or vanished.
+ * a StaleDataError is raised only when a written row really changed or vanished;
+ * after a successful commit without expiry every written object carries the version its
+   own row was written with (per record, whatever else the flush wrote).
 """
 import itertools
 import os
@@ -36,8 +46,8 @@ PID = "C44"
 LEVEL = "proof"
 LEAN = ["SaVerif.Props.C44"]
 META = {
-    "text": "Lean theorems over ALL histories (any number of sessions, rows and operations, by induction over the step function of the session/database transition system): a flush that writes a row whose version (after the flush-time load of an expired version) is not the current one, or whose row vanished, does not succeed; every unsuccessful commit and every flush+rollback leaves the database unchanged; every successful UPDATE increments the version by exactly one (counter) and unchanged rows keep theirs; no successful write replaces a row content the writer had not seen (ghost stamps) - unconditionally for a generator of never-used values, and for the integer counter unless a deleted primary key was re-inserted (the counter restarts at 1: proved counterexample, replayed on the real code as a known finding). The model is tied to orm/persistence.py by a differential run of generated and small-scope-exhaustive histories on real Sessions over a SQLite file (4 mapping variants incl. server-side versioning and joined inheritance), and the property itself is re-checked on the real outcome by an independent optimistic-concurrency reference.",
-    "note": "Trusted: Lean kernel; the correspondence (sampling + exhaustive up to a small length); SQLite as the only backend (rowcount semantics of other DBAPIs are not exercised); post_update and relationship-driven flush paths with a version column are not modelled. no_lost_update for the integer counter is a _partial theorem (hypothesis: no re-insert of a deleted primary key) with a proved counterexample.",
+    "text": "Lean theorems over ALL histories (any number of sessions, rows and operations, by induction over the step function of the session/database transition system): a flush that writes a row whose version (after the flush-time load of an expired version) is not the current one, or whose row vanished, does not succeed; every unsuccessful commit and every flush+rollback leaves the database unchanged; every successful UPDATE increments the version by exactly one (counter) and unchanged rows keep theirs; no successful write replaces a row content the writer had not seen (ghost stamps) - unconditionally for a generator of never-used values, and for the integer counter unless a deleted primary key was re-inserted (the counter restarts at 1: proved counterexample, replayed on the real code as a known finding). A rejected flush leaves no pending object, deletion mark or modified object behind - after rollback(), and also when it ran inside a SAVEPOINT (begin_nested) that alone is rolled back while the enclosing transaction commits - so the rejected change is never written later (failed_commit_leaves_nothing_to_write, failed_commit_then_commit_db_unchanged; uses the expiry condition of SessionTransaction._restore_snapshot, regenerated from the source); every record of a successful multi-row flush leaves its object with the version stored in its own row (writer_version_eq_row_after_commit; one UPDATE per versioned record: the allow_executemany conjunction of _emit_update_statements is regenerated from the source). The model is tied to orm/persistence.py and orm/session.py by a differential run of generated and small-scope-exhaustive histories on real Sessions over a SQLite file (7 mapping variants incl. server-side versioning and joined inheritance; SAVEPOINT episodes; multi-row flushes over rows with different counters by sessions that re-use their objects), and the property itself is re-checked on the real outcome by an independent optimistic-concurrency reference.",
+    "note": "Trusted: Lean kernel; the correspondence (sampling + exhaustive up to a small length); SQLite as the only backend (rowcount semantics of other DBAPIs are not exercised); post_update and relationship-driven flush paths with a version column are not modelled. SAVEPOINTs: only begin_nested() on a session with nothing to flush, one flush inside, then release+commit or savepoint-rollback+commit (a successful flush inside a SAVEPOINT that is rolled back later is not modelled); the model's per-batch postfetch branch (versionedUpdateExecutemany = true) is dead on the unchanged tree. no_lost_update for the integer counter is a _partial theorem (hypothesis: no re-insert of a deleted primary key) with a proved counterexample.",
     "technique": "Lean 4 invariant proof over an LTS of sessions + differential correspondence with real Sessions on SQLite + independent reference oracle",
     "design_ref": "DESIGN.md §3 C30–C48 (C44)",
 }
@@ -948,7 +958,9 @@ def _budget_exhausted(ctx, t0, n):
 
 def run(ctx, deep=False):
     ctx.rule = (
-        "histories of get/set/delete/add/expire/commit/flush+rollback/rollback over 2-3 real Sessions and 1-3 rows on a SQLite file, "
+        "histories of get/set/delete/add/expire/commit/flush+rollback/rollback/begin_nested over 2-3 real Sessions and 1-4 rows on a SQLite file "
+        "(SAVEPOINT episodes: flush inside the SAVEPOINT, on rejection savepoint-only rollback + commit; batch family: multi-row flushes over rows "
+        "with different version counters, objects re-used without reload; every 1-op (quick) / 2-op (thorough) in-memory sequence inside a SAVEPOINT x 3 concurrent-change prefixes), "
         "7 mapping variants (incl. 3-level joined inheritance with the changed column in the base / middle / leaf table) x expire_on_commit, random (seeded) + every sequence of 2 (quick) / 3 (thorough; 12% of length 4) ops over a 15-letter "
         "2-session/1-row alphabet after a create+load prefix; a case is non-trivial when at least one commit had something to write"
     )
